@@ -182,6 +182,17 @@ def one(ctx: Ctx, cs, pname=None, derive=None, **over):
         if got != exp:
             ctx.violation('spine-types-query', f'spine_types(headers={tys}) = {got}, header line of the projection is {exp}',
                           dict(case, spine_types=tys))
+        # the same query through an Exporter object that is kept for the whole run (the package function builds one per call)
+        try:
+            ctx.mon('spine_type_queries_through_long_lived_exporter')
+            got2 = kpx.long_exporter().get_spine_types(d, spine_types=tys)
+        except Exception as ex:
+            ctx.violation('spine-types-raises', f'Exporter.get_spine_types(spine_types={tys}) on a long-lived Exporter raised '
+                          f'{type(ex).__name__}: {ex}', dict(case, spine_types=tys))
+            continue
+        if got2 != exp:
+            ctx.violation('spine-types-query', f'get_spine_types(spine_types={tys}) of an Exporter object used before = {got2}, header line '
+                          f'of the projection is {exp}', dict(case, spine_types=tys))
     if len(ctx.samples) < 2 and nontriv_doc and len(x) < 500:
         ctx.sample({'case_seed': cs, 'text': x, 'spine_ids': [n - 1], 'export': kpx.dumps(d, spine_ids=[n - 1])[0]})
 
